@@ -409,6 +409,13 @@ func main() {
 		devs2 := append(append([]any{}, devs...), map[string]any{"name": "last", "containerEdits": map[string]any{"env": []any{"A=b"}}, "unknownMember": true})
 		bad := gen.Apply(b.Tree, gen.Mutation{Class: "large-document", Path: gen.Path{"devices"}, Op: "set", Value: devs2})
 		addDoc(b.Name, []gen.Mutation{{Class: "large-document:defect-in-last-device"}}, bad)
+		// annotation sets that are each below their 256 KiB limit and together above it (Spec level + two devices)
+		pad := strings.Repeat("x", 200*1024)
+		annDevs := []any{map[string]any{"name": "a0", "annotations": map[string]any{"pad.example.com/p": pad}, "containerEdits": map[string]any{"env": []any{"A=b"}}},
+			map[string]any{"name": "a1", "annotations": map[string]any{"pad.example.com/q": pad}, "containerEdits": map[string]any{"env": []any{"A=b"}}}}
+		ann := gen.Apply(b.Tree, gen.Mutation{Path: gen.Path{"devices"}, Op: "set", Value: annDevs}, gen.Mutation{Path: gen.Path{"annotations"}, Op: "set", Value: map[string]any{"pad.example.com/spec": pad}},
+			gen.Mutation{Path: gen.Path{"cdiVersion"}, Op: "set", Value: "0.6.0"})
+		addDoc(b.Name, []gen.Mutation{{Class: "large-document:annotation-sets-each-below-the-limit"}}, ann)
 	}
 	if r.Replay != "" {
 		var c Case
